@@ -24,7 +24,8 @@ template <typename IntegralN, typename IntegralK>
 static constexpr auto round_up(const IntegralN& n,
                                const IntegralK& k) -> decltype(n + k)
 {
-    return ((n + k - 1) / k) * k;
+    // n + k - 1 may overflow although the result is representable
+    return (n / k + (n % k != 0)) * k;
 }
 
 //! \}
